@@ -109,6 +109,24 @@ func c13Scenarios(tier string) []*core.Scenario {
 	one := func(name, key string, src string, f map[string]string) *core.Case {
 		return &core.Case{Key: key, Feat: f, Srcs: []string{src}, Judge: func(rs []*core.Result) core.Verdict { return crashVerdict(rs[0], src) }}
 	}
+	// branch relaxation must settle: the programs of C04's relaxation_edge_cases (an ALIGNB behind a growing branch absorbs
+	// or amplifies the shift, so an implementation that re-chooses forms from scratch can alternate for ever), judged on
+	// termination and crashes only
+	{
+		edges := c04RelaxEdges()
+		scs = append(scs, &core.Scenario{Name: "relaxation_termination", Bound: -1,
+			Rule:   "the programs of C04's relaxation_edge_cases under the liveness oracle: the assembler answers (no timeout, no panic, no death)",
+			Bounds: edges.Bounds,
+			Build: func(c *core.Chooser) *core.Case {
+				cs := edges.Build(c)
+				if cs == nil {
+					return nil
+				}
+				src := cs.Srcs[0]
+				cs.Judge = func(rs []*core.Result) core.Verdict { return crashVerdict(rs[0], src) }
+				return cs
+			}})
+	}
 	scs = append(scs, &core.Scenario{Name: "bytes_le2", Bound: -1,
 		Rule:   "ALL byte strings of length 0, 1 and 2 over the full 256-value alphabet; oracle: the assembler terminates without panic/fatal error/timeout; non-trivial = produced output bytes",
 		Bounds: map[string]any{"alphabet": 256, "max_len": 2},
